@@ -51,6 +51,15 @@ def targeted():
     H["unconstrained-var"] = [("add", 0, [A]), ("eval", 0, "y", 9, []), ("min", 0, "y", False, []), ("eval", 0, "x+y", 3, [])]
     H["pending-add-then-branch"] = [("add", 0, [A]), ("eval", 0, "x", 2, []), ("add", 0, [U]), ("branch", 0, 1), ("sat", 1, []), ("eval", 1, "x", 9, []), ("min", 1, "x", False, [])]
     H["pending-unsat-add-then-branch"] = [("add", 0, [A]), ("sat", 0, []), ("add", 0, ["x>K2"]), ("branch", 0, 1), ("sat", 1, []), ("sat", 0, [])]
+    # a variable the constraints do not mention: what is cached about it must not outlive the query that found it
+    H["unconstrained-min-solution-min"] = [("add", 0, [A]), ("min", 0, "y", False, []), ("solution", 0, "y", 1, []), ("min", 0, "y", False, []), ("max", 0, "y", False, []),
+                                           ("solution", 0, "y", 2, []), ("max", 0, "y", False, [])]
+    H["empty-min-solution-min"] = [("min", 0, "x", False, []), ("solution", 0, "x", 1, []), ("min", 0, "x", False, []), ("max", 0, "x", True, []), ("solution", 0, "x", 2, []), ("max", 0, "x", True, [])]
+    H["unconstrained-max-eval-max"] = [("add", 0, [A]), ("max", 0, "x+y", False, []), ("eval", 0, "y", 2, []), ("max", 0, "x+y", False, []), ("min", 0, "x+y", False, [])]
+    # every member of a batch is exhausted separately; the combinations are not
+    H["exhaust-each-then-batch"] = [("add", 0, [A, "y<=K2"]), ("eval", 0, "x", 9, []), ("eval", 0, "y", 9, []), ("batch", 0, ["x", "y"], 9, []), ("batch", 0, ["x+y", "x"], 9, [])]
+    H["exhaust-each-then-batch-linked"] = [("add", 0, [A, "y<=K2", "x+y==K0"]), ("eval", 0, "x", 9, []), ("eval", 0, "y", 9, []), ("batch", 0, ["x", "y"], 9, [])]
+    H["signed-min-extra"] = [("add", 0, ["x!=K2"]), ("min", 0, "x", True, ["x>=sK2"]), ("min", 0, "x", True, ["x>K2"]), ("max", 0, "x", True, ["x<=sK1"]), ("min", 0, "x", True, [])]
     H["const-expr"] = [("add", 0, [A]), ("eval", 0, "K1", 3, []), ("min", 0, "K1", True, []), ("solution", 0, "K1", 1, [])]
     H["bool-var"] = [("add", 0, ["b|x==K0"]), ("sat", 0, ["!b"]), ("eval", 0, "x", 9, ["!b"]), ("eval", 0, "x", 9, [])]
     for pos in range(1, 4):
